@@ -71,6 +71,7 @@ theorem isConst_den (raw fv : Nat) : ∀ (l : List Src) (n : Nat), isConst l = s
       simp [den, Src.eval, ih m hm]
     | inp a j ng => simp [isConst] at h
     | ors ls => simp [isConst] at h
+    | x2 g j g' j' ng => simp [isConst] at h
     | top => simp [isConst] at h
 
 theorem length_zeros (n : Nat) : (zeros n).length = n := by simp [zeros]
@@ -125,6 +126,7 @@ theorem Src.eval_not (raw fv : Nat) (s : Src) (h : s.not ≠ .top) : (s.not).eva
   | c b => simp [Src.not, Src.eval]
   | inp a j n => cases a <;> cases n <;> simp [Src.not, Src.eval]
   | ors ls => exact absurd rfl h
+  | x2 g j g' j' n => cases n <;> simp [Src.not, Src.eval]
   | top => exact absurd rfl h
 
 theorem any_insertLit (f : Lit → Bool) (l : Lit) : ∀ xs : List Lit, (insertLit l xs).any f = (f l || xs.any f) := by
@@ -158,11 +160,30 @@ theorem Src.eval_and (raw fv : Nat) (x y : Src) (h : Src.and x y ≠ .top) :
     | c b' => cases b <;> cases b' <;> rfl
     | inp a j n => cases b <;> simp [Src.and, Src.eval]
     | ors ls => cases b <;> simp [Src.and, Src.eval]
+    | x2 g j g' j' n => cases b <;> simp [Src.and, Src.eval]
+  | x2 g j g' j' n =>
+    cases y with
+    | top => exact absurd rfl h
+    | c b' => cases b' <;> simp [Src.and, Src.eval]
+    | inp a' j'' n' => simp [Src.and, Src.not] at h
+    | ors ls => simp [Src.and] at h
+    | x2 g2 j2 g2' j2' n2 =>
+      have e : Src.and (.x2 g j g' j' n) (.x2 g2 j2 g2' j2' n2) =
+          if Src.x2 g j g' j' n = .x2 g2 j2 g2' j2' n2 then .x2 g j g' j' n
+          else if Src.x2 g j g' j' n = (Src.x2 g2 j2 g2' j2' n2).not then .c false else .top := rfl
+      rw [e] at h ⊢
+      by_cases h1 : Src.x2 g j g' j' n = .x2 g2 j2 g2' j2' n2
+      · rw [if_pos h1, ← h1]; simp
+      · rw [if_neg h1] at h ⊢
+        by_cases h2 : Src.x2 g j g' j' n = (Src.x2 g2 j2 g2' j2' n2).not
+        · rw [if_pos h2, h2, Src.eval_not _ _ _ (by simp [Src.not])]; simp
+        · rw [if_neg h2] at h; exact absurd rfl h
   | inp a j n =>
     cases y with
     | top => exact absurd rfl h
     | c b' => cases b' <;> simp [Src.and, Src.eval]
     | ors ls => simp [Src.and] at h
+    | x2 g2 j2 g2' j2' n2 => simp [Src.and, Src.not] at h
     | inp a' j' n' =>
       have e : Src.and (.inp a j n) (.inp a' j' n') =
           if Src.inp a j n = .inp a' j' n' then .inp a j n else if Src.inp a j n = (Src.inp a' j' n').not then .c false else .top := rfl
@@ -178,6 +199,7 @@ theorem Src.eval_and (raw fv : Nat) (x y : Src) (h : Src.and x y ≠ .top) :
     | top => exact absurd rfl h
     | c b' => cases b' <;> simp [Src.and, Src.eval]
     | inp a' j' n' => simp [Src.and] at h
+    | x2 g2 j2 g2' j2' n2 => simp [Src.and] at h
     | ors ls' =>
       have e : Src.and (.ors ls) (.ors ls') = if Src.ors ls = .ors ls' then .ors ls else .top := rfl
       rw [e] at h ⊢
@@ -195,10 +217,19 @@ theorem Src.eval_or (raw fv : Nat) (x y : Src) (h : Src.or x y ≠ .top) :
     | c b' => cases b <;> cases b' <;> rfl
     | inp a j n => cases b <;> simp [Src.or, Src.eval]
     | ors ls => cases b <;> simp [Src.or, Src.eval]
+    | x2 g j g' j' n => cases b <;> simp [Src.or, Src.eval]
+  | x2 g j g' j' n =>
+    cases y with
+    | top => exact absurd rfl h
+    | c b' => cases b' <;> simp [Src.or, Src.eval]
+    | inp a' j'' n' => exact absurd rfl h
+    | ors ls => exact absurd rfl h
+    | x2 g2 j2 g2' j2' n2 => exact absurd rfl h
   | inp a j n =>
     cases y with
     | top => exact absurd rfl h
     | c b' => cases b' <;> simp [Src.or, Src.eval]
+    | x2 g2 j2 g2' j2' n2 => exact absurd rfl h
     | ors ls =>
       have e : Src.or (.inp a j n) (.ors ls) = .ors (insertLit ⟨a, j, n⟩ ls) := rfl
       rw [e, Src.eval_inp]; simp only [Src.eval, any_insertLit]
@@ -223,6 +254,7 @@ theorem Src.eval_or (raw fv : Nat) (x y : Src) (h : Src.or x y ≠ .top) :
     cases y with
     | top => exact absurd rfl h
     | c b' => cases b' <;> simp [Src.or, Src.eval]
+    | x2 g2 j2 g2' j2' n2 => exact absurd rfl h
     | inp a' j' n' =>
       have e : Src.or (.ors ls) (.inp a' j' n') = .ors (insertLit ⟨a', j', n'⟩ ls) := rfl
       rw [e, Src.eval_inp]; simp only [Src.eval, any_insertLit, Bool.or_comm]
@@ -255,6 +287,7 @@ theorem Src.eval_mux (raw fv : Nat) (c x y : Src) (h : Src.mux c x y ≠ .top) :
       | c b => cases b <;> simp [Src.eval]
       | inp a j n => exact key _ h
       | ors ls => exact key _ h
+      | x2 g j g' j' n => exact key _ h
 
 /-! ### lists of bits -/
 
@@ -328,8 +361,44 @@ theorem den_or {a b : List Src} {n : Nat} (ha : a.length = n) (hb : b.length = n
     simp only [List.getElem_zipWith] at this ⊢
     exact (Src.eval_or raw fv _ _ this).symm
 
+theorem Src.eval_inp' (raw fv : Nat) (g : Bool) (j : Nat) (n : Bool) :
+    (Src.inp g j n).eval raw fv = ((if g then fv else raw).testBit j != n) := by
+  cases g <;> rfl
+
+theorem eval_mk2 (raw fv : Nat) (g : Bool) (j : Nat) (n : Bool) (g' : Bool) (j' : Nat) (n' : Bool) :
+    (mk2 g j n g' j' n').eval raw fv = ((Src.inp g j n).eval raw fv != (Src.inp g' j' n').eval raw fv) := by
+  rw [Src.eval_inp', Src.eval_inp']
+  unfold mk2
+  split <;> simp only [Src.eval] <;>
+    (generalize (if g then fv else raw).testBit j = a
+     generalize (if g' then fv else raw).testBit j' = b
+     cases a <;> cases b <;> cases n <;> cases n' <;> rfl)
+
+theorem eval_x2inp (raw fv : Nat) (g1 : Bool) (j1 : Nat) (g2 : Bool) (j2 : Nat) (n : Bool) (g : Bool) (j : Nat) (m : Bool)
+    (h : x2inp g1 j1 g2 j2 n g j m ≠ .top) :
+    (x2inp g1 j1 g2 j2 n g j m).eval raw fv = ((Src.x2 g1 j1 g2 j2 n).eval raw fv != (Src.inp g j m).eval raw fv) := by
+  unfold x2inp at h ⊢
+  by_cases h1 : g = g1 ∧ j = j1
+  · rw [if_pos h1]; obtain ⟨rfl, rfl⟩ := h1
+    rw [Src.eval_inp', Src.eval_inp']; simp only [Src.eval]
+    generalize (if g then fv else raw).testBit j = a
+    generalize (if g2 then fv else raw).testBit j2 = b
+    cases a <;> cases b <;> cases n <;> cases m <;> rfl
+  · rw [if_neg h1] at h ⊢
+    by_cases h2 : g = g2 ∧ j = j2
+    · rw [if_pos h2]; obtain ⟨rfl, rfl⟩ := h2
+      rw [Src.eval_inp', Src.eval_inp']; simp only [Src.eval]
+      generalize (if g then fv else raw).testBit j = a
+      generalize (if g1 then fv else raw).testBit j1 = b
+      cases a <;> cases b <;> cases n <;> cases m <;> rfl
+    · rw [if_neg h2] at h; exact absurd rfl h
+
 theorem Src.eval_xor (raw fv : Nat) (x y : Src) (h : Src.xor x y ≠ .top) :
     (Src.xor x y).eval raw fv = (x.eval raw fv != y.eval raw fv) := by
+  have hnotC : ∀ s : Src, s.not ≠ .top → (s.not).eval raw fv = (true != s.eval raw fv) := by
+    intro s hs; rw [Src.eval_not _ _ _ hs]; cases s.eval raw fv <;> rfl
+  have hnotC' : ∀ s : Src, s.not ≠ .top → (s.not).eval raw fv = (s.eval raw fv != true) := by
+    intro s hs; rw [Src.eval_not _ _ _ hs]; cases s.eval raw fv <;> rfl
   cases x with
   | top => exact absurd rfl h
   | c b =>
@@ -339,30 +408,35 @@ theorem Src.eval_xor (raw fv : Nat) (x y : Src) (h : Src.xor x y ≠ .top) :
     | inp a j n =>
       cases b with
       | false => simp [Src.xor, Src.eval]
-      | true =>
-        have e : Src.xor (.c true) (.inp a j n) = (Src.inp a j n).not := rfl
-        rw [e, Src.eval_not _ _ _ (by simp [Src.not])]; simp [Src.eval]
+      | true => exact hnotC (.inp a j n) (by simp [Src.not])
     | ors ls =>
       cases b with
       | false => simp [Src.xor, Src.eval]
       | true => exact absurd rfl h
+    | x2 g j g' j' n =>
+      cases b with
+      | false => simp [Src.xor, Src.eval]
+      | true => exact hnotC (.x2 g j g' j' n) (by simp [Src.not])
   | inp a j n =>
     cases y with
     | top => exact absurd rfl h
     | c b' =>
       cases b' with
       | false => simp [Src.xor, Src.eval]
-      | true =>
-        have e : Src.xor (.inp a j n) (.c true) = (Src.inp a j n).not := rfl
-        rw [e, Src.eval_not _ _ _ (by simp [Src.not])]; simp [Src.eval]
+      | true => exact hnotC' (.inp a j n) (by simp [Src.not])
     | ors ls => exact absurd rfl h
+    | x2 g1 j1 g2 j2 m =>
+      have e : Src.xor (.inp a j n) (.x2 g1 j1 g2 j2 m) = x2inp g1 j1 g2 j2 m a j n := rfl
+      rw [e] at h ⊢
+      rw [eval_x2inp raw fv _ _ _ _ _ _ _ _ h]
+      cases (Src.x2 g1 j1 g2 j2 m).eval raw fv <;> cases (Src.inp a j n).eval raw fv <;> rfl
     | inp a' j' n' =>
-      have e : Src.xor (.inp a j n) (.inp a' j' n') = if a = a' ∧ j = j' then .c (n != n') else .top := rfl
+      have e : Src.xor (.inp a j n) (.inp a' j' n') = if a = a' ∧ j = j' then .c (n != n') else mk2 a j n a' j' n' := rfl
       rw [e] at h ⊢
       by_cases h1 : a = a' ∧ j = j'
       · rw [if_pos h1]; obtain ⟨rfl, rfl⟩ := h1
         cases a <;> cases n <;> cases n' <;> simp [Src.eval]
-      · rw [if_neg h1] at h; exact absurd rfl h
+      · rw [if_neg h1, eval_mk2]
   | ors ls =>
     cases y with
     | top => exact absurd rfl h
@@ -372,6 +446,30 @@ theorem Src.eval_xor (raw fv : Nat) (x y : Src) (h : Src.xor x y ≠ .top) :
       | true => exact absurd rfl h
     | inp a' j' n' => exact absurd rfl h
     | ors ls' => exact absurd rfl h
+    | x2 g1 j1 g2 j2 m => exact absurd rfl h
+  | x2 g1 j1 g2 j2 m =>
+    cases y with
+    | top => exact absurd rfl h
+    | c b' =>
+      cases b' with
+      | false => simp [Src.xor, Src.eval]
+      | true => exact hnotC' (.x2 g1 j1 g2 j2 m) (by simp [Src.not])
+    | ors ls => exact absurd rfl h
+    | inp a j n =>
+      have e : Src.xor (.x2 g1 j1 g2 j2 m) (.inp a j n) = x2inp g1 j1 g2 j2 m a j n := rfl
+      rw [e] at h ⊢
+      exact eval_x2inp raw fv _ _ _ _ _ _ _ _ h
+    | x2 g1' j1' g2' j2' m' =>
+      have e : Src.xor (.x2 g1 j1 g2 j2 m) (.x2 g1' j1' g2' j2' m') =
+          if g1 = g1' ∧ j1 = j1' ∧ g2 = g2' ∧ j2 = j2' then .c (m != m') else .top := rfl
+      rw [e] at h ⊢
+      by_cases h1 : g1 = g1' ∧ j1 = j1' ∧ g2 = g2' ∧ j2 = j2'
+      · rw [if_pos h1]; obtain ⟨rfl, rfl, rfl, rfl⟩ := h1
+        simp only [Src.eval]
+        generalize (if g1 then fv else raw).testBit j1 = a
+        generalize (if g2 then fv else raw).testBit j2 = b
+        cases a <;> cases b <;> cases m <;> cases m' <;> rfl
+      · rw [if_neg h1] at h; exact absurd rfl h
 
 theorem den_xor {a b : List Src} {n : Nat} (ha : a.length = n) (hb : b.length = n)
     (h : noTop (List.zipWith Src.xor a b) = true) :
